@@ -156,6 +156,18 @@ pub fn generate(g: &mut Gen, thorough: bool) {
             }
         }
     }
+    // several files: read in the order given (whatever their names), a file named twice read twice; lines of which
+    // nothing can be read are coordinate lines all the same (NaN in, one line out)
+    for files in [
+        vec!["1 2\n3 4\n", "5 6\n"], vec!["5 6\n", "1 2\n3 4\n", "5 6\n"], vec!["1 2\n", "1 2\n"], vec!["7 8 9\n", "1 2\n", "3 4 5 6\n", "1 2\n"],
+        vec!["NaN NaN\n1 2\n", "n/a n/a\n3 4\nx y z\n"], vec!["NaN NaN NaN NaN\n", "1 2\n"], vec!["abc\n1 2\nNaN\n"],
+    ] {
+        for (d, dim) in [(Some(2), Some(2)), (Some(3), Some(4))] {
+            let c = KpCase { inv: false, rt: false, z: None, t: None, d, dim, op: "addone".into(), files: files.iter().map(|f| Some(f.to_string())).collect() };
+            g.push(c.line("KP"), "kp-files-in-order", true);
+            g.push(c.line("S_C20"), "oracle-files-in-order", true);
+        }
+    }
     // empty input, unreadable files, invalid operations
     let fixed = [
         KpCase { inv: false, rt: false, z: None, t: None, d: Some(2), dim: Some(2), op: "addone".into(), files: vec![Some(String::new())] },
